@@ -279,6 +279,8 @@ pub struct CoopRun {
     pub alive_at_write_return: Vec<bool>,
     pub ticks: u64,
     pub fault_fired: bool,
+    pub fault_site: fault::Site,
+    pub fault_event: u64,
     pub fault_tid: u32,
     pub unstable_finalization: bool,
     pub proto_viol: Vec<Violation>,
@@ -495,6 +497,8 @@ pub fn run_parallel(case: &CoopCase, world: Arc<Mutex<World>>, fault_at: Option<
     }
     let ticks = fault::count();
     let fault_fired = fault::fired();
+    let fault_site = fault::last_site();
+    let fault_event = fault::fired_event();
     fault::disarm();
     // listed finding cyc-kf1: was a cycle finalized while a head's dependency list still changed?
     let mut unstable_finalization = false;
@@ -562,6 +566,8 @@ pub fn run_parallel(case: &CoopCase, world: Arc<Mutex<World>>, fault_at: Option<
         alive_at_write_return: alive_at_write_return.lock().unwrap().clone(),
         ticks,
         fault_fired,
+        fault_site,
+        fault_event,
         fault_tid: 0,
         unstable_finalization,
         proto_viol,
@@ -947,6 +953,19 @@ pub fn run_coop_case(which: &str, case: &CoopCase) -> SeqOutcome {
     outc.counters.push(("protocol_wakes_not_completed", run.proto_bad_wakes));
     if run.proto_bad_wakes > 0 {
         outc.labels.push("wake-with-panic-or-cancel");
+    }
+    // listed findings of the single-handle fault engine apply here as well
+    if let Mode::Fault { .. } = case.mode {
+        if run.fault_fired {
+            let during_discard = run.fault_site == fault::Site::Callback && run.fault_event != 0;
+            for x in v.iter_mut() {
+                if during_discard && !x.rule.starts_with("kf:") && x.rule != "hang" {
+                    x.rule = crate::faulty::KF_DISCARD_CALLBACK.to_string();
+                } else if run.fault_site == fault::Site::FieldHash && x.detail.contains("interned value in LRU so must be in key_map") {
+                    x.rule = crate::faulty::KF_HASH_REHASH.to_string();
+                }
+            }
+        }
     }
     if outc.labels.contains(&"kf-c14-provisional-escaped") {
         for x in v.iter_mut() {
